@@ -576,6 +576,10 @@ RunDefers(ds, r) ==
   ELSE LET d == ds[Len(ds)]
            rd == CallFn(d.f, d.args, r.s) IN
        IF rd.k = "unknown" THEN Unknown(rd.s)
+       \* (not when the call is ending with a recovered Go panic - integer division by zero, ... : the deferred calls
+       \*  still run, with their effects, but the panic stays the outcome)
+       ELSE IF rd.k = "raise" /\ r.k = "raise" /\ r.v.kind = "panic"
+            THEN RunDefers(SubSeq(ds, 1, Len(ds) - 1), [k |-> r.k, v |-> r.v, s |-> rd.s])
        ELSE IF rd.k = "raise" THEN RunDefers(SubSeq(ds, 1, Len(ds) - 1), rd)
        ELSE IF rd.k # "ok" THEN Unknown(rd.s)
        ELSE RunDefers(SubSeq(ds, 1, Len(ds) - 1), [k |-> r.k, v |-> r.v, s |-> rd.s])
